@@ -270,7 +270,10 @@ func (p *parser) readGsub3() *gtab.LookupTable {
 			p.fatal("expected single glyph, got %v", from)
 		}
 		p.required(itemArrow, "\"->\"")
-		to := p.readGlyphSet()
+		// the alternates are an ordered list (the position selects the alternate)
+		p.required(itemSquareBracketOpen, "[")
+		to := p.readGlyphList()
+		p.required(itemSquareBracketClose, "]")
 
 		fromGid := from[0]
 		if _, ok := res[fromGid]; ok {
